@@ -246,7 +246,13 @@ def value_for(r, f, alpha):
     if py in ('int', 'long'):
         w = flen if ftype == 'FIXED' else min(cap, flen or 9)
         w = max(1, w)
-        return r.choice((0, 10 ** w - 1, 1, r.randrange(10 ** w), r.randrange(10 ** min(w, 3))))
+        v = r.choice((0, 10 ** w - 1, 1, r.randrange(10 ** w), r.randrange(10 ** min(w, 3))))
+        k = r.random()
+        if k < 0.10:
+            return str(v)                                   # the number given as text (what the CSV tools pass)
+        if k < 0.22:
+            return '0' * r.randrange(1, 9) + str(v)         # ... with leading zeros, also wider than the element
+        return v
     if py == 'datetime':
         return rdatetime(r, f.get('field_date_format', '%y%m%d'))
     if py == 'decimal':
@@ -300,7 +306,17 @@ def gen_message(r, bit_config, alpha, maxbits=12):
             continue
         m['DE' + b] = value_for(r, f, alpha)
     if use_pds:
-        m.update(rpds(r, alpha, len(carriers)))
+        items = rpds(r, alpha, len(carriers))
+        m.update(items)
+        cs = sorted(carriers, key=int)
+        if len(cs) >= 2 and sum(7 + len(v) for v in items.values()) <= 900 and r.random() < 0.3:
+            # PDS entries (they fit the first carrier) NEXT TO a directly supplied later carrier with other tags
+            b = r.choice(cs[1:])
+            f = bit_config[b]
+            extra = {k: v for k, v in rpds(r, alpha, 1).items() if k not in items}
+            s = ''.join('%s%03d%s' % (k[3:], len(v), v) for k, v in sorted(extra.items()))
+            if f['field_type'] != 'FIXED' and s and len(s) <= (99 if f['field_type'] == 'LLVAR' else 999):
+                m['DE' + b] = s
     return m
 
 
